@@ -264,9 +264,82 @@ theorem LockInv.step {s s' : EState} {t : Nat} (h : LockInv s) (hs : step s t = 
           by_cases hsc : sc = fr.cur
           · subst hsc; simp [a3, a1]
           · simp only [updS_other _ _ hsc]; exact h.excl sc
-      · sorry
-      · sorry
-      · sorry
+      · -- Lock
+        obtain ⟨a1, a0, a2, a3⟩ := sh.lockW rfl
+        obtain ⟨p0, pwr⟩ := t2 rfl
+        have prd : readMethod fr.m = false := by cases hfm : fr.m <;> simp_all [writeMethod, readMethod]
+        simp only [reduceCtorEq, if_false] at c5
+        apply h.step_gen hth
+        · intro fr2 hfr; simp [upd] at hfr; subst hfr; exact hfw'
+        · intro sc
+          simp only [upd, if_true, heldRc, justLocked, c1, c2, c3, c4, c5, prd, Bool.and_false, Bool.false_eq_true,
+            if_false, Nat.add_zero]
+          have := hrd sc
+          simp only [prd, Bool.and_false, Bool.false_eq_true, if_false, Nat.add_zero] at this
+          by_cases hsc : sc = fr.cur
+          · subst hsc; simpa [a3] using this
+          · simp only [updS_other _ _ hsc]; exact this
+        · intro sc
+          simp only [upd, if_true, heldWc, justLocked, c1, c2, c3, c4, c5, Bool.not_false, Bool.true_and]
+          by_cases hsc : sc = fr.cur
+          · subst hsc
+            have := hwr fr.cur
+            simp only [updS_same, a2]
+            simp [p0, a1] at this ⊢
+            simp [this, pwr]
+          · have := hwr sc
+            have hne : ¬ fr.cur = sc := fun hh => hsc hh.symm
+            simp only [updS_other _ _ hsc]
+            simp [p0, hne] at this ⊢
+            exact this
+        · intro u hu sc
+          by_cases hsc : sc = fr.cur
+          · subst hsc; simp [a3]
+          · simp only [updS_other _ _ hsc]; exact Nat.le_refl _
+        · intro u hu sc hh
+          by_cases hsc : sc = fr.cur
+          · subst hsc; rw [a1] at hh; cases hh
+          · simp only [updS_other _ _ hsc]; exact hh
+        · intro sc
+          by_cases hsc : sc = fr.cur
+          · subst hsc; simp [a3, a0]
+          · simp only [updS_other _ _ hsc]; exact h.excl sc
+      · -- defer RUnlock
+        obtain ⟨hw', hr'⟩ := sh.lockN (by simp) (by simp)
+        obtain ⟨p1, prd⟩ := t3 rfl
+        simp only [if_true] at c5
+        apply h.step_frame hth
+        · intro sc
+          by_cases hsc : sc = fr.cur
+          · subst hsc; simp [hw', hr']
+          · simp [updS_other _ _ hsc]
+        · intro fr2 hfr; simp [upd] at hfr; subst hfr; exact hfw'
+        · intro sc
+          simp only [upd, if_true, hc, heldRc, justLocked, c1, c2, c3, c4, c5, hnr, Bool.not_false, Bool.true_and]
+          rw [List.count_cons]
+          by_cases hsc : fr.cur = sc <;> simp [p1, prd, hsc]
+        · intro sc
+          simp only [upd, if_true, hc, heldWc, justLocked, c1, c2, c3, c4, c5, hnr, Bool.not_false, Bool.true_and]
+          rw [List.count_cons]
+          simp [p1]
+      · -- defer Unlock
+        obtain ⟨hw', hr'⟩ := sh.lockN (by simp) (by simp)
+        obtain ⟨p1, pwr⟩ := t4 rfl
+        simp only [reduceCtorEq, if_false, if_true] at c5
+        apply h.step_frame hth
+        · intro sc
+          by_cases hsc : sc = fr.cur
+          · subst hsc; simp [hw', hr']
+          · simp [updS_other _ _ hsc]
+        · intro fr2 hfr; simp [upd] at hfr; subst hfr; exact hfw'
+        · intro sc
+          simp only [upd, if_true, hc, heldRc, justLocked, c1, c2, c3, c4, c5, hnr, Bool.not_false, Bool.true_and]
+          rw [List.count_cons]
+          simp [p1]
+        · intro sc
+          simp only [upd, if_true, hc, heldWc, justLocked, c1, c2, c3, c4, c5, hnr, Bool.not_false, Bool.true_and]
+          rw [List.count_cons]
+          by_cases hsc : fr.cur = sc <;> simp [p1, pwr, hsc]
     · have hl' : isLockOp m = false := by simpa using hl
       have hmr : m ≠ .rlock := by intro hh; subst hh; simp [isLockOp] at hl'
       have hml : m ≠ .lock := by intro hh; subst hh; simp [isLockOp] at hl'
